@@ -16,6 +16,7 @@ R07.4  the usage mask / exclude / remove_defaults logic agrees between the two
 from __future__ import annotations
 
 import ast
+import re
 from dataclasses import dataclass, field
 
 from ..core import (AnalysisError, Report, call_name, dotted, find_class, find_func, need,
@@ -74,10 +75,31 @@ def _kw(call: ast.Call, name: str):
 
 
 def _const(e):
+    """value of a literal, or of a module-level constant (`EMPTY_STRINGS = frozenset({'', 'none'})`)"""
+    if isinstance(e, ast.Call) and norm(e.func) in ('frozenset', 'set', 'tuple', 'list') and len(e.args) == 1:
+        e = e.args[0]
     try:
         return ast.literal_eval(e)
     except Exception:
-        return None
+        pass
+    if isinstance(e, (ast.Name, ast.Attribute)):
+        name = e.id if isinstance(e, ast.Name) else e.attr
+        mod = e
+        while getattr(mod, '_parent', None) is not None:
+            mod = mod._parent
+        repo = getattr(mod, '_repo', None)
+        mods = [mod] if isinstance(mod, ast.Module) else []
+        if repo is not None:
+            mods += [repo.tree(r) for r in repo.py_files(OPT)]
+        for m in mods:
+            for st in ast.walk(m):
+                if isinstance(st, (ast.Assign, ast.AnnAssign)) and st.value is not None:
+                    tg = st.targets[0] if isinstance(st, ast.Assign) else st.target
+                    if isinstance(tg, ast.Name) and tg.id == name and tg.id.isupper():
+                        v = _const(st.value) if not isinstance(st.value, (ast.Name, ast.Attribute)) else None
+                        if v is not None:
+                            return v
+    return None
 
 
 def read_registry(rep: Report, idx: Index) -> list[Opt]:
@@ -215,7 +237,7 @@ def resolve_fn(idx: Index, rel: str, ref: str):
     if ref.startswith('DashOption.'):
         dm = idx.by_rel[f'{OPT}/dash_option.py']
         f = dm.classes['DashOption'].methods.get(ref.split('.', 1)[1])
-        return (f.node if f else None), ref
+        return (_expand(idx, f.node) if f else None), ref
     if ref == 'flatten':
         return None, 'flatten'
     if ref in ('default_to_string',):
@@ -223,11 +245,19 @@ def resolve_fn(idx: Index, rel: str, ref: str):
     if ref == 'EventBase.int_or_default_from_string':
         return None, 'int_or_default'
     if ref in mod.functions:
-        return mod.functions[ref].node, ref
+        return _expand(idx, mod.functions[ref].node), ref
     q = idx.resolve_name(mod, ref)
     if q in idx.functions:
-        return idx.functions[q].node, ref
+        return _expand(idx, idx.functions[q].node), ref
     return None, ref
+
+
+def _expand(idx: Index, node):
+    """normal form of a parser / formatter (new helpers inlined, conditional expressions split)"""
+    try:
+        return idx.repo.normaliser.expand(node)
+    except Exception:
+        return node
 
 
 def summarise_parser(fn, label: str) -> FnSummary:
@@ -256,6 +286,25 @@ def summarise_parser(fn, label: str) -> FnSummary:
         if isinstance(n, ast.Assign) and isinstance(n.value, ast.Call) and '.lower()' in norm(n.value) \
                 and isinstance(n.targets[0], ast.Name):
             pass
+    # delegation: `quoted = DashOption.string_or_none(value)` - the sibling decides what means "none"
+    params_ = [a.arg for a in body.args.args] if isinstance(body, (ast.FunctionDef, ast.Lambda)) else []
+    for n in ast.walk(body):
+        if isinstance(n, ast.Call) and isinstance(n.func, ast.Attribute) and isinstance(n.func.value, ast.Name) \
+                and n.func.value.id in ('DashOption', 'cls', 'clz') and n.args \
+                and isinstance(n.args[0], ast.Name) and n.args[0].id in params_ and not s.none_test:
+            mod_ = body
+            while getattr(mod_, '_parent', None) is not None:
+                mod_ = mod_._parent
+            owner = next((c for c in getattr(mod_, 'body', []) if isinstance(c, ast.ClassDef)
+                          and c.name == 'DashOption'), None)
+            if owner is None and getattr(mod_, '_repo', None) is not None:
+                owner = find_class(mod_._repo.tree(f'{OPT}/dash_option.py'), 'DashOption')
+            callee = find_func(owner, n.func.attr) if owner is not None else None
+            if callee is not None and callee is not body and getattr(callee, 'name', '') != getattr(body, 'name', None):
+                sub = summarise_parser(callee, n.func.attr)
+                s.none_test = sub.none_test
+                if 'None' in sub.returns:
+                    s.returns.add('None')
     low = any(isinstance(n, ast.Assign) and norm(n.value).endswith('.lower()') for n in ast.walk(body))
     if low and not s.none_test:
         s.none_test = 'insensitive'
@@ -660,70 +709,111 @@ def r07_4(rep: Report, idx: Index) -> None:
     cls = need(find_class(tree, 'OptionsContainer'), 'OptionsContainer')
     a = need(find_func(cls, '_generate_parameters_dict'), '_generate_parameters_dict')
     b = need(find_func(cls, '_convert_sub_options'), '_convert_sub_options')
+    from ..pathcond import PathCond, atoms_of, entails as pc_entails, f_not, show as pc_show
+    from ..flow import Disjunctive, Flow
     for fn in (a, b):
         construct = f'{rel}::OptionsContainer.{fn.name}'
-        txt = norm(fn)
-        mask = any(isinstance(n, ast.If) and 'opt.usage & use' in norm(n.test)
-                   and '== 0' in norm(n.test) and isinstance(n.body[0], ast.Continue)
-                   for n in ast.walk(fn))
-        excl = any(isinstance(n, ast.If) and ' in exclude' in norm(n.test)
-                   and isinstance(n.body[0], ast.Continue) for n in ast.walk(fn))
-        dflt = any(isinstance(n, ast.If) and 'remove_defaults' in norm(n.test)
-                   for n in ast.walk(fn))
-        tostr = any(isinstance(n, ast.Assign) and 'opt.to_string(value)' in norm(n.value)
-                    for n in ast.walk(fn))
-        for label, okv in (('usage mask', mask), ('exclude', excl), ('remove_defaults', dflt),
-                           ('to_string applied', tostr)):
-            if okv:
+        emits: list[tuple[ast.stmt, tuple]] = []
+
+        def on_stmt(st, states, _emits=emits):
+            if isinstance(st, (ast.If, ast.While, ast.For, ast.With, ast.Try)):
+                return
+            if isinstance(st, ast.Assign) and isinstance(st.targets[0], ast.Subscript) \
+                    and any(isinstance(c, ast.Call) and isinstance(c.func, ast.Attribute)
+                            and c.func.attr == 'to_string' for c in ast.walk(st.value)):
+                for x in states:
+                    _emits.append((st, x))
+        Flow(Disjunctive(PathCond(), cap=512), on_stmt=on_stmt).run(fn, [PathCond.initial()])
+        if not emits:
+            rep.fail(rid, construct, 'to_string applied',
+                     f'{fn.name} no longer stores opt.to_string(value) into the parameter dictionary', fn)
+            continue
+        rep.ok(rid, construct, 'to_string applied')
+
+        def category(atom: str) -> str | None:
+            t = atom
+            if re.search(r'\buse\b|\.usage\b|usage_allows', t):
+                return 'usage'
+            if re.search(r'exclud', t):
+                return 'exclude'
+            if re.search(r'default|dft|_defaults', t, re.I):
+                return 'default'
+            if 'isinstance(' in t and 'OptionsContainer' in t:
+                return 'nested'
+            if re.fullmatch(r'(destination|params|dest\w*) is None', t):
+                return 'housekeeping'
+            return None
+        cats: set[str] = set()
+        unknown: dict[str, ast.stmt] = {}
+        for st, x in emits:
+            for at in atoms_of(x[0]):
+                c = category(at)
+                if c is None:
+                    unknown.setdefault(at, st)
+                else:
+                    cats.add(c)
+        for at, st in unknown.items():
+            rep.fail(rid, construct, f'skip under `{at[:50]}`',
+                     f'{fn.name} emits an option only under the condition `{at[:80]}`, which is none of '
+                     'usage mask / exclude set / equal to the default / nested container: the manifest is '
+                     'built with the requested value but the media URLs fall back to the stream default '
+                     '(e.g. an option explicitly set back to none)', st)
+        if not unknown:
+            rep.ok(rid, construct, 'no other skip condition', f'conditions on the emission: {sorted(cats)}')
+        # usage mask and exclude set are honoured on every path to the emission
+        for label, pat in (('usage mask', r'\.usage & \w+ == 0|usage_allows'), ('exclude', r'^\S+ in \w*exclud\w*$')):
+            ok_all = True
+            why = ''
+            for st, x in emits:
+                cands = [at for at in atoms_of(x[0]) if re.search(pat, at)]
+                if not cands:
+                    ok_all, why = False, 'no such test on a path to the emission'
+                    break
+                a0 = cands[0]
+                goal = f_not(('atom', a0)) if 'usage_allows' not in a0 else ('atom', a0)
+                if label == 'usage mask' and 'usage_allows' not in a0:
+                    goal = ('or', ('atom', 'use is None'), f_not(('atom', a0)))
+                if pc_entails(x[0], goal) is not True:
+                    ok_all, why = False, f'path condition {pc_show(x[0])[:120]} does not imply it'
+                    break
+            if ok_all:
                 rep.ok(rid, construct, label)
             else:
                 rep.fail(rid, construct, label,
-                         f'{fn.name} does not honour `{label}` like its sibling generator', fn)
-        # the only reasons to leave a value out of the URL: usage mask, exclude set, equal to the
-        # default, or a nested container handled by the sibling generator
-        accepted = ('opt.usage & use', ' in exclude', '== dft_val', 'isinstance(value, OptionsContainer)')
-        skips = [n for n in ast.walk(fn) if isinstance(n, ast.Continue)]
-        for c in skips:
-            g = next((x for x in ancestors(c) if isinstance(x, ast.If)), None)
-            gt = norm(g.test) if g is not None else '(unconditional)'
-            if any(k in gt for k in accepted):
-                rep.ok(rid, construct, f'skip under `{gt[:50]}`')
-            else:
-                rep.fail(rid, construct, f'skip under `{gt[:50]}`',
-                         f'{fn.name} leaves an option out of the generated parameters when `{gt[:80]}`: '
-                         'the manifest is built with the requested value but the media URLs fall back '
-                         'to the stream default (e.g. an option explicitly set back to none)', c)
+                         f'{fn.name} does not honour `{label}` like its sibling generator ({why})', fn)
+        if 'default' in cats:
+            rep.ok(rid, construct, 'remove_defaults')
+        else:
+            rep.fail(rid, construct, 'remove_defaults',
+                     f'{fn.name} does not honour `remove_defaults` like its sibling generator', fn)
     # media parameter sets are generated with the matching usage
     mc = idx.functions.get(
         'dashlive.server.requesthandler.manifest_context.ManifestContext.calculate_cgi_parameters')
-    want = {'vid_cgi_params': 'VIDEO', 'aud_cgi_params': 'AUDIO', 'txt_cgi_params': 'TEXT',
-            'clk_cgi_params': 'TIME'}
-    got = {}
-    for n in ast.walk(mc.node):
-        if isinstance(n, ast.Assign) and isinstance(n.targets[0], ast.Name) \
-                and n.targets[0].id in want and isinstance(n.value, ast.Call):
-            u = _kw(n.value, 'use')
-            got[n.targets[0].id] = norm(u).rsplit('.', 1)[-1] if u is not None else None
-    for var, use in want.items():
-        if got.get(var) == use:
-            rep.ok(rid, mc.construct(), f'{var} use={use}')
-        else:
-            rep.fail(rid, mc.construct(), f'{var} use={use}',
-                     f'{var} is generated with use={got.get(var)}', mc.node)
-    # the collection passes each set to the matching media type
-    coll = next((n for n in ast.walk(mc.node) if isinstance(n, ast.Call)
+    mcn = _expand(idx, mc.node)
+    coll = next((n for n in ast.walk(mcn) if isinstance(n, ast.Call)
                  and call_name(n) == 'CgiParameterCollection'), None)
     if coll is None:
         raise AnalysisError('CgiParameterCollection(...) not found')
-    pairs = {k.arg: norm(k.value) for k in coll.keywords}
-    exp = {'audio': 'aud_cgi_params', 'video': 'vid_cgi_params', 'text': 'txt_cgi_params',
-           'time': 'clk_cgi_params'}
-    for k, v in exp.items():
-        if pairs.get(k) == v:
-            rep.ok(rid, mc.construct(), f'collection.{k}')
+    exp = {'audio': 'AUDIO', 'video': 'VIDEO', 'text': 'TEXT', 'time': 'TIME'}
+    pairs = {k.arg: k.value for k in coll.keywords}
+    for kind, use in exp.items():
+        v = pairs.get(kind)
+        src = v
+        if isinstance(v, ast.Name):
+            ds = [a_ for a_ in ast.walk(mcn) if isinstance(a_, ast.Assign) and norm(a_.targets[0]) == v.id]
+            src = ds[0].value if len(ds) == 1 else None
+        got = None
+        if isinstance(src, ast.Call) and (call_name(src) or '').endswith('generate_cgi_parameters'):
+            u = _kw(src, 'use')
+            got = norm(u).rsplit('.', 1)[-1] if u is not None else None
+        key = f'collection.{kind} use={use}'
+        if got == use:
+            rep.ok(rid, mc.construct(), key)
         else:
-            rep.fail(rid, mc.construct(), f'collection.{k}',
-                     f'CgiParameterCollection({k}={pairs.get(k)}) - expected {v}', coll)
+            rep.fail(rid, mc.construct(), key,
+                     f'the {kind} parameter set is generated with use={got} '
+                     f'(`{short(src, 60) if src is not None else norm(v) if v is not None else "missing"}`): '
+                     f'options of other media types reach (or {kind} options miss) the {kind} URLs', coll)
     # create_period appends each set to the adaptation sets of that type
     cp = idx.functions.get(
         'dashlive.server.requesthandler.manifest_context.ManifestContext.create_period')
@@ -773,7 +863,7 @@ def analyse(rep: Report) -> None:
     rep.rule('R07.2', 'options read while generating media carry a media usage', floor=20)
     rep.rule('R07.3', 'resolved start and depth are stored before URL parameters are computed', floor=3)
     rep.rule('R07.4', 'usage mask / exclude / defaults agree between the parameter generators and the '
-                      'sets reach the matching media type', floor=18)
+                      'sets reach the matching media type', floor=15)
     rep.rule('R07.5', 'option parsers keep no state between the items of a list value', floor=3)
     idx = Index(rep.repo)
     cg = CallGraph(idx)
